@@ -27,6 +27,7 @@ from typing import ClassVar
 from numpy import argmax
 from numpy import concatenate
 from numpy import full
+from numpy import ndarray
 from numpy import tile
 from numpy import where
 from numpy import zeros
@@ -224,6 +225,10 @@ class CenteredDifferences(BaseGradientApproximator):
             .reshape((2 * n_indices, input_dimension))
             .T
         )
+        if isinstance(step, ndarray):
+            # One step per input component: keep the ones of the differentiated ones.
+            step = step[input_indices]
+
         if self._design_space is None:
             input_perturbations[input_indices, range(n_indices)] += step
             input_perturbations[input_indices, range(n_indices, 2 * n_indices)] -= step
